@@ -246,11 +246,12 @@ class bspline(object):
         indx = self.intrv(x)
         bf1 = self.bsplvn(x, indx)
         action = bf1
-        aa = uniq(indx, np.arange(indx.size, dtype='i4'))
-        upper[indx[aa]-self.nord+1] = aa
-        rindx = indx[::-1]
-        bb = uniq(rindx, np.arange(rindx.size, dtype='i4'))
-        lower[rindx[bb]-self.nord+1] = nx - bb - 1
+        if nx > 0:
+            aa = uniq(indx, np.arange(indx.size, dtype='i4'))
+            upper[indx[aa]-self.nord+1] = aa
+            rindx = indx[::-1]
+            bb = uniq(rindx, np.arange(rindx.size, dtype='i4'))
+            lower[rindx[bb]-self.nord+1] = nx - bb - 1
         if x2 is not None:
             if x2.size != nx:
                 raise ValueError('Dimensions of x and x2 do not match.')
